@@ -6,3 +6,21 @@ p = "/verif/DESIGN.md"
 s = open(p).read()
 s = re.sub(r"<!-- seeded-table-begin -->.*<!-- seeded-table-end -->", "<!-- seeded-table-begin -->\n" + t + "<!-- seeded-table-end -->", s, flags=re.S)
 open(p, "w").write(s)
+
+# ---- the list of seeded changes that were missed at first (from the evaluation_history notes in seeded/*/meta.json)
+import json, glob
+rows = []
+for mp in sorted(glob.glob("/verif/seeded/*/meta.json")):
+    m = json.load(open(mp))
+    h = m.get("evaluation_history")
+    if not h:
+        continue
+    if isinstance(h, str):
+        h = [h]
+    rows.append("* `%s` - %s" % (m["name"], " ".join(x.strip() for x in h)))
+block = "<!-- missed-begin -->\n" + "\n".join(rows) + "\n<!-- missed-end -->"
+s = open(p).read()
+if "<!-- missed-begin -->" in s:
+    s = re.sub(r"<!-- missed-begin -->.*<!-- missed-end -->", lambda _: block, s, flags=re.S)
+    open(p, "w").write(s)
+print("seeded changes with an evaluation history (missed or invalid at first):", len(rows))
